@@ -255,7 +255,18 @@ def classify(history):
     return "+".join(feats)
 
 
-def events_for(nlive, thorough):
+def events_for(nlive, mode):
+    """mode: False/'base' (no swaps), True/'full' (everything), 'swap' (reduced alphabet with swaps)."""
+    if mode == "swap":
+        evs = [("def", 1), ("def", 2)]
+        for s in range(min(nlive, 2)):
+            evs.append(("call", s, 0))
+        for s in range(min(nlive, 1)):
+            for k in (1, 2):
+                evs.append(("swap", s, k))
+        evs.append(("restart",))
+        return evs
+    thorough = bool(mode) and mode != "base"
     evs = [("def", 1), ("def", 2), ("def", 3)]
     if thorough:
         evs.append(("def", 4))
@@ -354,6 +365,10 @@ def run(ctx):
     for kind in KINDS:
         for sh in range(nsh):
             items.append((kind, depth, not quick, sh, nsh, 4000 if quick else 40000))
+        if quick:
+            # code-object swaps (and the moved definition v4) at a smaller depth
+            for sh in range(nsh):
+                items.append((kind, depth, "swap", sh, nsh, 4000))
     states = trans = 0
     maxd = 0
     k = 0
